@@ -18,6 +18,7 @@ package rules
 
 import (
 	"slices"
+	"strings"
 	"sync"
 
 	"github.com/dadrus/heimdall/internal/heimdall"
@@ -59,7 +60,7 @@ func (r *repository) FindRule(ctx heimdall.Context) (rule.Rule, error) {
 	defer r.rulesTreeMutex.RUnlock()
 
 	entry, err := r.index.Find(
-		x.IfThenElse(len(request.URL.RawPath) != 0, request.URL.RawPath, request.URL.Path),
+		x.IfThenElse(len(request.URL.RawPath) != 0, normalizeRawPath(request.URL.RawPath), request.URL.Path),
 		radixtree.LookupMatcherFunc[rule.Route](func(route rule.Route, keys, values []string) bool {
 			return route.Matches(ctx, keys, values)
 		}),
@@ -213,4 +214,57 @@ func (r *repository) removeRulesFrom(tree *radixtree.Tree[rule.Route], tbdRules 
 	}
 
 	return nil
+}
+
+// normalizeRawPath applies the percent-encoding normalization defined by RFC 3986, Section 6.2.2
+// to the given raw path: percent-encoded unreserved characters are decoded and the hexadecimal
+// digits of the remaining percent-encodings are converted to upper case. Equivalent encodings of
+// a path result by that in the same lookup key.
+func normalizeRawPath(rawPath string) string {
+	if !strings.Contains(rawPath, "%") {
+		return rawPath
+	}
+
+	var builder strings.Builder
+
+	builder.Grow(len(rawPath))
+
+	for i := 0; i < len(rawPath); i++ {
+		if rawPath[i] != '%' || i+2 >= len(rawPath) || !isHex(rawPath[i+1]) || !isHex(rawPath[i+2]) {
+			builder.WriteByte(rawPath[i])
+
+			continue
+		}
+
+		decoded := unhex(rawPath[i+1])<<4 | unhex(rawPath[i+2]) //nolint:mnd
+		if isUnreserved(decoded) {
+			builder.WriteByte(decoded)
+		} else {
+			builder.WriteString(strings.ToUpper(rawPath[i : i+3]))
+		}
+
+		i += 2
+	}
+
+	return builder.String()
+}
+
+func isUnreserved(c byte) bool {
+	return (c >= 'a' && c <= 'z') || (c >= 'A' && c <= 'Z') || (c >= '0' && c <= '9') ||
+		c == '-' || c == '.' || c == '_' || c == '~'
+}
+
+func isHex(c byte) bool {
+	return (c >= '0' && c <= '9') || (c >= 'a' && c <= 'f') || (c >= 'A' && c <= 'F')
+}
+
+func unhex(c byte) byte {
+	switch {
+	case c >= '0' && c <= '9':
+		return c - '0'
+	case c >= 'a' && c <= 'f':
+		return c - 'a' + 10 //nolint:mnd
+	default:
+		return c - 'A' + 10 //nolint:mnd
+	}
 }
